@@ -22,7 +22,9 @@ CHECKS = {
          "Every state of the power/tuning/hopping/clock-link machine reachable by POWERON/POWEROFF/RXTUNE/TXTUNE/SETFH "
          "addressed to any transceiver is visited for several application configurations (children of BTS and MS, extra "
          "transceivers, other base ports); each transition's reply and each state's clock indications, burst acceptance, "
-         "routing and queue-forgetting POWEROFF cycle are compared with a reference model; the frontier is exhausted.",
+         "routing and queue-forgetting POWEROFF cycle (also through the parent of a managed child) are compared with a reference model; the frontier "
+         "is exhausted; the documented UDP port plan is checked at every application start; power commands racing a tick of the real clock "
+         "generator are explored as thread schedules (preemption bound 1 quick / 2 thorough).",
          "Clock thread replaced by direct send_clck_ind() calls (liveness observed on the fake Thread object); one shared "
          "carrier; untuned-but-running children not judged for routing.",
          "DESIGN.md 2/C12", "world+explore"),
@@ -39,7 +41,8 @@ CHECKS = {
          "All frame numbers of the hyperframe are visited; l1s_time_inc (firmware sync.c, compiled unmodified for the host) is "
          "applied from every state for every delta of the quantifier's set (thorough: every delta 0..2652 and the large ones), "
          "gsm_fn2gsmtime/gsm_gsmtime2fn (tree's gsm_utils.c) are checked in every state, and the Python fn2gsm_time is compared "
-         "with the C decomposition for every frame number.",
+         "with the C decomposition for every frame number, plus a fixed non-monotonic call sequence (wrap, steps back over superframe "
+         "boundaries, interleaved streams) for order independence.",
          "Host x86-64 build under ASan/UBSan; expected values from independent division arithmetic in the driver.",
          "DESIGN.md 2/C19", "cbuild"),
  "C02": ("model_checking",
@@ -47,7 +50,8 @@ CHECKS = {
          "The reachable configurations of 3-5 transceivers under {tune, SETFH variants (cyclic and pseudo-random, 1-5 channels), POWERON, POWEROFF} "
          "are exhausted; in every state every running sender transmits at every probe frame number (covering T1/T2/T3 carries and the end of "
          "the hyperframe) and the set of datagrams on all L1 DATA ports must equal the reference recipients; repeated for several header "
-         "version / mute assignments.",
+         "version / mute assignments; the probe is repeated after a power cycle and after re-SETFH at the same frame number; recipient-side "
+         "power/hopping/tuning commands racing the forwarding tick are explored as thread schedules.",
          "Clock handler called with the probe frame number; untuned-but-running children not judged; default attenuation.",
          "DESIGN.md 2/C02", "world+explore"),
  "C03": ("model_checking",
@@ -87,7 +91,8 @@ CHECKS = {
          "For 3 valid sessions every position x every mutant of the valid datagram there (all truncations, header octet values, all bits of the first "
          "11 octets, version nibbles, argument faults, NUL/case variants) is injected through Application.run(); no exception may escape, "
          "unacceptable datagrams must change nothing and emit nothing, clearly malformed commands must be ignored or answered with a non-zero "
-         "status, and the rest of the session must match the reference model; plus all strings of length <= 5 over a 7-octet alphabet on both "
+         "status, and the rest of the session must match the reference model (argument faults are also sent in place of the valid command and "
+         "the rest of the session must survive); plus all strings of length <= 5 over a 7-octet alphabet on both "
          "sockets, every data mutant through Tx/RxMsg.parse_msg (ValueError only) and every single-octet corruption/truncation of a capture file.",
          "The harness's strict grammar decides what is 'clearly malformed'; unclassifiable inputs are judged for crash-freedom/liveness only.",
          "DESIGN.md 2/C14", "world+enum"),
@@ -112,7 +117,9 @@ CHECKS = {
          "Every firmware task is run alone through complete 10 608-frame cycles (first and last cycle of the hyperframe; thorough 8 cycle bases) with a "
          "recording tdma_schedule_set stub; every trxcon (channel combination, timeslot) layout and every frames[fn % period] entry is read under ASan; "
          "block-start / per-frame sets are compared for all 328 (task, direction, timeslot) triples, bid cycles, lchan_mask and slotmask are checked "
-         "for every layout.",
+         "for every layout; the SACCH phase of every TCH layout is compared with the per-timeslot rule of TS 45.002; the tree's real sched_trx.c is "
+         "driven for every (combination, timeslot): configure (a channel state for every channel owning a frame), every frame number of a cycle, "
+         "the hyperframe wrap and every (phase, length) loss pattern, each callback compared with the layout.",
          "Correspondence table (firmware task <-> trxcon lchan) is part of the harness; sched_mframe.c built against two stand-in system headers; UBSan shift check off for 1<<31 in mframe_schedule.",
          "DESIGN.md 2/C11", "cbuild"),
  "C06": ("model_checking",
